@@ -32,7 +32,7 @@ def findings_table():
 
 
 def seeded_table():
-    out = ["| property | file changed | the change | what it needs to show | result of `./check <id> --tier quick` on it |",
+    out = ["| seed (CNN = round 1, CNNb = round 2) | file changed | the change | what it needs to show | result of `./check CNN --tier quick` on it |",
            "|---|---|---|---|---|"]
     for mp in sorted(glob.glob(f"{V}/seeded/C*/meta.json")):
         m = json.load(open(mp))
@@ -45,12 +45,13 @@ def seeded_table():
             if det.get("tier"):
                 res += f" ({det['tier']})"
         elif det.get("exit") is not None:
-            res = f"MISSED (exit {det.get('exit')})"
+            res = f"not caught by its own check (exit {det.get('exit')})"
         else:
             res = "not run"
         if m.get("note"):
             res += " -- " + m["note"]
-        out.append(f"| {m.get('property')} | {', '.join(os.path.basename(f) for f in m.get('files_changed', []))} | "
+        sid = os.path.basename(os.path.dirname(mp))
+        out.append(f"| {sid} | {', '.join(os.path.basename(f) for f in m.get('files_changed', []))} | "
                    f"{short(m.get('what', ''), 260)} | {short(m.get('needs', ''), 260)} | {short(res, 260)} |")
     return "\n".join(out)
 
